@@ -302,7 +302,7 @@ func runC17(env *lib.Env, rep *lib.Report) {
 		depth = 6
 	}
 	seeds := []string{"empty", "a-with-row+b"}
-	rep.Bounds["depth"] = depth
+	rep.Bounds["depth"] = fmt.Sprintf("%d from the seeded state, %d from the empty directory", depth, depth-1)
 	rep.Bounds["seeds"] = seeds
 	rep.Bounds["events"] = "CREATE DATABASE a|B, USE a|b|A|B|nosuch (names are case-insensitive), CREATE TABLE t, INSERT, TICK of every live store (including abandoned ones), RESTART; SHOW DATABASES and read-back are checked after every event"
 	known := env.OpenKnown()
@@ -359,7 +359,11 @@ func runC17(env *lib.Env, rep *lib.Report) {
 				c.SetKnown("D18-use-abandons-open-store")
 			}
 		}()
-		for step := 0; step < depth; step++ {
+		steps := depth
+		if seed == "empty" {
+			steps = depth - 1 // four events are needed before the first row exists; the seeded state covers the rest
+		}
+		for step := 0; step < steps; step++ {
 			evs := w.events()
 			e := evs[c.Choose(len(evs), "event")]
 			c.Logf("%s", e.name)
